@@ -115,7 +115,7 @@ class Gen:
                 # a regulator in drop-out: |vo| < |Vin| < |vo| + vdrop, its output follows the input at |Vin| - vdrop
                 u = rng.uniform(0.7, 0.9)
                 P["vo"] = math.copysign(max(_r(u * av, 4), 0.3), vo)
-                P["vdrop"] = _r((av - abs(P["vo"])) * rng.uniform(1.3, 2.5), 4)
+                P["vdrop"] = _r(min((av - abs(P["vo"])) * rng.uniform(1.3, 2.5), 0.9 * abs(P["vo"])), 4)     # (vdrop < |vo|)
             elif vin and rng.random() < 0.05:
                 # a regulator without head-room at all: |Vin| <= vdrop < |vo|, its output is 0 V although it is on
                 P["vo"] = math.copysign(_r(1.6 * av, 4), vo)
